@@ -148,7 +148,8 @@ Nak(m, xid, sid) ==
    sid |-> sid, lt |-> FALSE, mbr |-> TRUE]
 
 \* subnet_lease.go saveConfig: allocated leases only
-Saved(L) == {[k |-> j, mac |-> L[j].mac, ip |-> L[j].ip, xid |-> L[j].xid] : j \in {x \in CIDs : L[x] # Nil /\ L[x].st = "allocated"}}
+\* cur: the expiry written to the file is the expiry the server holds in memory for that lease
+Saved(L) == {[k |-> j, mac |-> L[j].mac, ip |-> L[j].ip, xid |-> L[j].xid, cur |-> TRUE] : j \in {x \in CIDs : L[x] # Nil /\ L[x].st = "allocated"}}
 
 \* discover.go handleDiscover
 DiscoverOp(s0, k, m, req, xid, prl) ==
@@ -342,7 +343,7 @@ PropMsg(e, out, h0, cap) ==
       \* a REQUEST that names no address is dropped by the server unseen: the largest readings stay as they are
       void0 == e.kind = "request" /\ e.reff = NoA
       o1 == IF void0 THEN obs[k]
-            ELSE IF gone \/ (obs[k].dmac # NoMac /\ (obs[k].dmac # e.m \/ obs[k].dcap # cap))      \* the server re-creates the lease
+            ELSE IF obs[k].dmac # NoMac /\ (obs[k].dmac # e.m \/ obs[k].dcap # cap)      \* the server re-creates the lease
             THEN [o0 EXCEPT !.last = NoA, !.dur = NoA, !.dmac = NoMac] ELSE o0
       o1b == IF e.kind = "request" /\ e.sid = "other" THEN [o1 EXCEPT !.dur = NoA, !.dmac = NoMac] ELSE o1
       o2 == IF tous THEN [o1b EXCEPT !.void = TRUE, !.last = IF e.kind = "decline" /\ e.reff = @ THEN NoA ELSE @,
@@ -367,6 +368,9 @@ PropMsg(e, out, h0, cap) ==
                              THEN o2.stl \cup {a} ELSE o2.stl
                   IN /\ verdict' = {[g |-> g, c |-> Cause(g, e, r, A2, O2, h0)] : g \in Guards(e, r, A2, O2, h0, cap)}
                                    \cup (IF r.t = "ack" /\ a = e.reff THEN {} ELSE renew)
+                                   \* C18: every acknowledgement is durable: the lease file holds the binding with its current expiry
+                                   \cup (IF r.t = "ack" /\ InNet(1, a) /\ ~(\E f \in file' : f.k = k /\ f.mac = e.m /\ f.ip = a /\ f.cur)
+                                         THEN {[g |-> "C18_AckDurable", c |-> "none"]} ELSE {})
                      /\ IF r.t = "offer"
                         THEN /\ obs' = [O2 EXCEPT ![k] = [o2 EXCEPT !.offer = a, !.xid = r.xid, !.old = FALSE, !.void = FALSE, !.omac = e.m, !.ocap = cap, !.req = req, !.dup = dup, !.stl = stl,
                                                                  !.offd = @ \cup {a}]]
@@ -462,12 +466,13 @@ Restart == RestartM /\ RestartR
 \* a new handler on the same lease file and the SAME session (capture flags and tracked hosts survive)
 ReloadM == /\ lease' = LoadOpS(file, ment) /\ next' = [n \in {1, 2} |-> First(n)]
            /\ file' = Saved(LoadOpS(file, ment)) /\ Quiet /\ UNCHANGED <<hosts, ment>>
-ReloadR == /\ acked' = [j \in CIDs |-> IF acked[j] # Nil /\ ~InNet(1, acked[j].ip) THEN Nil ELSE acked[j]]
+ReloadR == /\ acked' = [j \in CIDs |-> IF acked[j] # Nil /\ (~InNet(1, acked[j].ip) \/ acked[j].cap # IsCap(ment, acked[j].mac))
+                                   THEN Nil ELSE acked[j]]      \* the lease is re-attached under the present capture state
            /\ obs' = [j \in CIDs |-> [obs[j] EXCEPT !.offer = NoA, !.xid = NoX, !.old = FALSE, !.void = FALSE,
                                                      !.last = IF lease'[j] # Nil THEN lease'[j].ip ELSE NoA,
                                                      !.dur = IF lease'[j] # Nil THEN lease'[j].ip ELSE NoA,
                                                      !.dmac = IF lease'[j] # Nil THEN lease'[j].mac ELSE NoMac,
-                                                     !.dcap = lease'[j] # Nil /\ IsCap(ment, lease'[j].mac)]]
+                                                     !.dcap = lease'[j] # Nil /\ lease'[j].net = 2]]   \* the subnet the loader attached it to
            /\ verdict' = RestartVerdict(lease')
 Reload == ReloadM /\ ReloadR
 
@@ -502,7 +507,7 @@ TypeOK ==
 GuardsC11 == {"C11_NoDoubleAck", "C11_NoOfferOfAcked", "C11_NotReserved", "C11_InSubnet", "C11_NotOthersTracked"}
 GuardsC12 == {"C12_Subnet", "C12_Router", "C12_DNS", "C12_Mask", "C12_ServerId", "C12_LeaseTime", "C12_Echo",
               "C12_AckMatches", "C12_NoAckWhen"}
-GuardsC18 == {"C18_CleanRestart", "C18_RenewAcked"}
+GuardsC18 == {"C18_CleanRestart", "C18_RenewAcked", "C18_AckDurable"}
 Family(g)  == IF g \in GuardsC11 THEN "C11" ELSE IF g \in GuardsC12 THEN "C12" ELSE "C18"
 Failed(g)  == \E f \in verdict : f.g = g
 \* strict forms: one per guard of the statements (expected to have counterexamples while findings are open)
@@ -522,6 +527,7 @@ C12_AckMatches == ~Failed("C12_AckMatches")
 C12_NoAckWhen  == ~Failed("C12_NoAckWhen")
 C18_CleanRestart == ~Failed("C18_CleanRestart")
 C18_RenewAcked   == ~Failed("C18_RenewAcked")
+C18_AckDurable   == ~Failed("C18_AckDurable")
 Strict == verdict = {}
 
 =============================================================================
